@@ -151,11 +151,14 @@ def doc_of(text):
 class Fixture:
     """one table written both ways + everything loaded from the whole files"""
 
-    def __init__(self, spec, route, gen, n, poke=None, name=None):
+    def __init__(self, spec, route, gen, n, poke=None, name=None, group=None, root_spec=None):
         import random
         import h5py
         from biom import Table
         self.spec, self.route, self.gen, self.poke = spec, route, gen, poke
+        # several tables in one file: this one in the sub-group `group`; at the root another table
+        # (`root_spec`) or nothing but an unrelated dataset
+        self.group, self.root_spec = group, root_spec
         os.makedirs(TMP, exist_ok=True)
         self.path = os.path.join(TMP, name or ("t%d.biom" % n))
         t = core.build(spec, route)
@@ -168,7 +171,14 @@ class Fixture:
         prng = random.Random(poke) if poke is not None else None
         self.poked = core.poke_layout(t, prng, 3) if prng else []
         with h5py.File(self.path, "w") as f:
-            t.to_hdf5(f, gen)
+            if group:
+                if root_spec:
+                    core.build(root_spec, "dense").to_hdf5(f, "root table")
+                else:
+                    f.create_dataset("notes", data=[1, 2, 3])
+                t.to_hdf5(f.create_group(group), gen)
+            else:
+                t.to_hdf5(f, gen)
         if prng:
             self.poked += core.poke_layout(t, prng, 3)
         self.text = t.to_json(gen)
@@ -179,8 +189,9 @@ class Fixture:
         self.text_dio = buf.getvalue()
         self._pf = {}
         with h5py.File(self.path, "r") as f:
-            self.full_h5 = Table.from_hdf5(f)
-            self.view = self._view(f)
+            g = f[group] if group else f
+            self.full_h5 = Table.from_hdf5(g)
+            self.view = self._view(g)
         self.full_h5_obs = core.table_obs(self.full_h5)
         self.full_json_obs = core.table_obs(Table.from_json(json.loads(self.text)))
         self.doc = doc_of(self.text)
@@ -207,7 +218,7 @@ class Fixture:
         from biom import Table
         if name not in self._pf:
             with h5py.File(self.path, "r") as f:
-                full = Table.from_hdf5(f, parse_fs=PARSE_FS[name])
+                full = Table.from_hdf5(f[self.group] if self.group else f, parse_fs=PARSE_FS[name])
             view = copy.deepcopy(self.view)
             for ax in ("observation", "sample"):
                 view[ax]["md"] = core.canon_md(full.metadata(axis=ax))
@@ -257,11 +268,15 @@ def make_call(fx, variant, ids, axis, ser="writer", how="list", form="str", opts
     opts = opts or {}
     pf = PARSE_FS[opts["parse_fs"]] if opts.get("parse_fs") else None
     # ONE request object per call, handed to the reader as it is (and inspected afterwards)
-    passed = as_container(ids, how) if variant in ("h5", "h5nomd") else \
-        (ids if opts.get("same_list") else list(ids))
+    passed = ids if opts.get("same_list") else as_container(ids, how)
 
+    @contextlib.contextmanager
     def opened():
-        return contextlib.nullcontext(handle) if handle is not None else h5py.File(fx.path, "r")
+        if handle is not None:
+            yield handle
+        else:
+            with h5py.File(fx.path, "r") as fh:
+                yield fh[fx.group] if fx.group else fh
     if variant == "h5":
         def f():
             with opened() as h:
@@ -269,7 +284,9 @@ def make_call(fx, variant, ids, axis, ser="writer", how="list", form="str", opts
                 if opts.get("positional"):
                     return Table.from_hdf5(h, c, axis, pf, True)
                 if opts.get("explicit_md"):
-                    return Table.from_hdf5(h, ids=c, axis=axis, parse_fs=pf, subset_with_metadata=True)
+                    import numpy as np
+                    flag = {"True": True, "1": 1, "np.True_": np.True_}[str(opts["explicit_md"])]
+                    return Table.from_hdf5(h, ids=c, axis=axis, parse_fs=pf, subset_with_metadata=flag)
                 if pf is not None:
                     return Table.from_hdf5(h, ids=c, axis=axis, parse_fs=pf)
                 return Table.from_hdf5(h, ids=c, axis=axis)
@@ -278,6 +295,10 @@ def make_call(fx, variant, ids, axis, ser="writer", how="list", form="str", opts
             with opened() as h:
                 if opts.get("positional"):
                     return Table.from_hdf5(h, passed, axis, None, False)
+                if opts.get("flag"):
+                    import numpy as np
+                    return Table.from_hdf5(h, ids=passed, axis=axis,
+                                           subset_with_metadata={"0": 0, "np.False_": np.False_}[opts["flag"]])
                 return Table.from_hdf5(h, ids=passed, axis=axis, subset_with_metadata=False)
     elif variant == "parseh5":
         def f():
@@ -324,7 +345,7 @@ def make_call(fx, variant, ids, axis, ser="writer", how="list", form="str", opts
 def real_result(fx, variant, ids, axis, ser="writer", how="list", form="str", opts=None):
     call = make_call(fx, variant, ids, axis, ser, how, form, opts)
     res, note = res_of(call)
-    want = as_container(ids, how) if variant in ("h5", "h5nomd") else list(ids)
+    want = as_container(ids, how)
     if note is None and [str(x) for x in call.passed] != [str(x) for x in want]:
         note = "the reader changed the request object it was given"
     return res, note
@@ -357,7 +378,7 @@ def write_ids_file(path, ids, deco):
         f.write(nl.join(lines) + ("" if deco == "noeol" else nl))
 
 
-def cli_result(fx, kind, ids, axis, n, inj_path=None, deco="columns", ser="writer"):
+def cli_result(fx, kind, ids, axis, n, inj_path=None, deco="columns", ser="writer", in_place=False):
     """the click sub-command itself (never the group: it closes fd 1), output file loaded again"""
     import h5py
     from click.testing import CliRunner
@@ -367,11 +388,20 @@ def cli_result(fx, kind, ids, axis, n, inj_path=None, deco="columns", ser="write
     out = os.path.join(TMP, "out%d.biom" % n)
     inj = inj_path or os.path.join(TMP, "in%d.json" % n)
     long_flags = n % 2 == 1
-    before = open(fx.path, "rb").read() if kind == "cmdh5" else None
+    src = fx.path
+    if in_place:
+        # work on a copy of the input and name it as the output too
+        out = os.path.join(TMP, "inplace%d.biom" % n)
+        if kind == "cmdh5":
+            shutil.copyfile(fx.path, out)
+            src = out
+        else:
+            inj = out
+    before = open(src, "rb").read() if kind == "cmdh5" else None
     write_ids_file(idf, ids, deco)
     try:
         if kind == "cmdh5":
-            args = ["--input-hdf5-fp" if long_flags else "-i", fx.path]
+            args = ["--input-hdf5-fp" if long_flags else "-i", src]
         else:
             with open(inj, "w", encoding="utf8") as f:
                 f.write(serialise(fx, ser))
@@ -389,9 +419,15 @@ def cli_result(fx, kind, ids, axis, n, inj_path=None, deco="columns", ser="write
                     return Table.from_hdf5(h)
             with open(out, encoding="utf8") as h:
                 return Table.from_json(json.load(h))
+        if kind != "cmdh5":
+            before = open(inj, "rb").read()
         res, note = res_of(f)
-        if before is not None and open(fx.path, "rb").read() != before:
+        now = open(src if kind == "cmdh5" else inj, "rb").read() if os.path.exists(src if kind == "cmdh5" else inj) \
+            else None
+        if not in_place and now != before:
             note = "the command modified its input file"
+        if in_place and "error" in res and now != before:
+            note = "a refused in-place request changed the file"
         return res, note
     finally:
         for p in (idf, out, inj):
@@ -428,11 +464,11 @@ def observe_out_of_domain(ctx, fx, variant, ids, axis, ser, cli=False, deco="col
 
 
 def check_case(ctx, fx, variant, ids, axis, ser="writer", how="list", form="str", tags=(), cli=False,
-               result=None, opts=None, inj_path=None, deco="columns"):
+               result=None, opts=None, inj_path=None, deco="columns", in_place=False):
     opts = opts or {}
     inp = {"spec": fx.spec, "route": fx.route, "gen": fx.gen, "poke": fx.poke, "variant": variant, "ids": list(ids),
            "axis": axis, "ser": ser, "how": how, "form": form, "cli": cli, "opts": opts,
-           "deco": deco if cli else None}
+           "deco": deco if cli else None, "in_place": in_place}
     axis_ids = fx.spec["samp"] if axis == "sample" else fx.spec["obs"]
     known = all(i in axis_ids for i in ids)
     if ser.startswith("sorted"):
@@ -441,8 +477,10 @@ def check_case(ctx, fx, variant, ids, axis, ser="writer", how="list", form="str"
     ctx.case(inp, nontrivial=len(axis_ids) >= 2)
     if result is None:
         if cli:
-            result, note = cli_result(fx, variant, ids, axis, ctx.evaluations, inj_path, deco, ser)
+            result, note = cli_result(fx, variant, ids, axis, ctx.evaluations, inj_path, deco, ser, in_place)
             ctx.count("cli:ids-file=" + deco)
+            if in_place:
+                ctx.count("cli:in-place")
         else:
             result, note = real_result(fx, variant, ids, axis, ser, how, form, opts)
     else:
@@ -590,6 +628,9 @@ def gen_spec(rng, max_n, max_m):
     if spec["omd"] and rng.random() < 0.3:
         for i, e in enumerate(spec["omd"]):
             e["taxonomy"] = ["k__A", "g__[Rum %d]" % i]
+    if spec["omd"] and rng.random() < 0.15 and not scanner_confused(samp[0]) and samp[0] != "columns":
+        for i, e in enumerate(spec["omd"]):
+            e[samp[0]] = "named like a sample %d" % i
     if spec["smd"] and rng.random() < 0.2:
         for i, e in enumerate(spec["smd"]):
             e["data"] = 'say "hi" [%d]' % i
@@ -727,7 +768,9 @@ def gen_opts(rng, fx, variant):
     elif c < 0.20 and variant in ("h5", "h5nomd", "parseh5", "jsonparse"):
         o["positional"] = True
     elif c < 0.26 and variant == "h5":
-        o["explicit_md"] = True
+        o["explicit_md"] = rng.choice(["True", "1", "np.True_"])
+    elif c < 0.26 and variant == "h5nomd":
+        o["flag"] = rng.choice(["0", "np.False_"])
     elif c < 0.36 and variant in ("h5", "h5nomd"):
         cats = set(k for md in (fx.spec.get("omd"), fx.spec.get("smd")) if md for e in md for k in e)
         names = [n for n in PARSE_FS if set(PARSE_FS[n]) & cats]
@@ -752,7 +795,8 @@ def handle_sequence(ctx, fx, rng):
     plan.insert(rng.randrange(len(plan) + 1), ("h5", "sample", [max(axis_ids, key=len) + "0"] + axis_ids[1:]))
     plan.append(plan[0])                      # asked again after its first answer was changed in place
     out, keep_alive = [], []
-    with h5py.File(fx.path, "r") as h:
+    with h5py.File(fx.path, "r") as fh:
+        h = fh[fx.group] if fx.group else fh
         for variant, axis, ids in plan:
             try:
                 t = make_call(fx, variant, ids, axis, handle=h)()
@@ -811,28 +855,36 @@ def run_fixture(ctx, fx, rng, quick, tags=(), sers=MAIN_SERS, light=False):
             check_case(ctx, fx, "h5", ids, axis, how=how, tags=tags, opts=gen_opts(rng, fx, "h5"))
             check_case(ctx, fx, "h5nomd", ids, axis, how=rng.choice(["list", "tuple", "bytes", "array-object"]),
                        tags=tags, opts=gen_opts(rng, fx, "h5nomd"))
+            hows = ["list", "list", "tuple", "array", "array-object"]
             if rng.random() < 0.4:
-                check_case(ctx, fx, "parseh5", ids, axis, tags=tags, opts=gen_opts(rng, fx, "parseh5"))
-            if rng.random() < 0.4:
-                check_case(ctx, fx, "cmdh5", ids, axis, tags=tags, opts=gen_opts(rng, fx, "cmdh5"))
+                check_case(ctx, fx, "parseh5", ids, axis, how=rng.choice(hows), tags=tags,
+                           opts=gen_opts(rng, fx, "parseh5"))
+            if rng.random() < 0.4 and not fx.group:
+                check_case(ctx, fx, "cmdh5", ids, axis, how=rng.choice(hows), tags=tags,
+                           opts=gen_opts(rng, fx, "cmdh5"))
             form = rng.choice(["str", "handle", "lines"])
-            check_case(ctx, fx, "jsonparse", ids, axis, ser=rng.choice(sers), form=form, tags=tags,
-                       opts=gen_opts(rng, fx, "jsonparse") if form == "str" else None)
+            check_case(ctx, fx, "jsonparse", ids, axis, ser=rng.choice(sers), form=form, how=rng.choice(hows),
+                       tags=tags, opts=gen_opts(rng, fx, "jsonparse") if form == "str" else None)
             for ser in sers:
-                check_case(ctx, fx, "cmdjson", ids, axis, ser=ser, tags=tags, opts=gen_opts(rng, fx, "cmdjson"))
+                check_case(ctx, fx, "cmdjson", ids, axis, ser=ser, how=rng.choice(hows), tags=tags,
+                           opts=gen_opts(rng, fx, "cmdjson"))
         for kind, ids in unknown_requests(rng, axis_ids, quick):
             utags = list(tags) + ["unknown-id", "unknown=" + kind]
             ctx.count("unknown-kind=" + kind)
             for variant in ("h5", "h5nomd", "parseh5", "cmdh5"):
-                check_case(ctx, fx, variant, ids, axis, how=rng.choice(["list", "tuple", "array"]) if variant == "h5"
-                           else "list", tags=utags)
+                if variant == "cmdh5" and fx.group:
+                    continue
+                check_case(ctx, fx, variant, ids, axis, how=rng.choice(["list", "tuple", "array"]), tags=utags)
             check_case(ctx, fx, "cmdjson", ids, axis, ser=rng.choice(sers), tags=utags)
             check_case(ctx, fx, "jsonparse", ids, axis, tags=utags)
         # a repeated requested ID: outside the quantifier, only the model agreement is checked
         if axis_ids and rng.random() < 0.5:
             rep = [axis_ids[0], axis_ids[0]] + axis_ids[1:2]
-            for variant in ("h5", "h5nomd", "cmdjson"):
+            rng.shuffle(rep)
+            for variant in ("h5", "h5nomd", "cmdjson", "jsonparse"):
                 check_case(ctx, fx, variant, rep, axis, tags=list(tags) + ["repeated-id"])
+            if not fx.tags:
+                check_text(ctx, fx, rep, axis, rng.choice(MAIN_SERS + ["direct_io"]))
         # raw-text layer
         if not fx.tags:
             for ser in sers:
@@ -1157,9 +1209,52 @@ def cli_stream(ctx, rng, n0):
                     deco = IDS_DECOS[k % len(IDS_DECOS)]
                     k += 1
                     check_case(ctx, fx, kind, ids, axis, cli=True, deco=deco, tags=["cli", "ids-file", "unknown-id"])
+                    check_case(ctx, fx, kind, ids, axis, cli=True, deco=deco, in_place=True,
+                               tags=["cli", "in-place", "unknown-id"])
+            # -o names the input: the table is sliced in place
+            for ids in reqs[axis][:3]:
+                for kind in ("cmdh5", "cmdjson"):
+                    check_case(ctx, fx, kind, ids, axis, ser=(MAIN_SERS + ["direct_io"])[k % 5], cli=True,
+                               deco=IDS_DECOS[k % len(IDS_DECOS)], in_place=True, tags=["cli", "in-place"])
+                    k += 1
+            # an ID named twice in the file (two lists concatenated): outside the quantifier, model agreement only
+            rep = reqs[axis][1] + reqs[axis][1][:1]
+            for kind in ("cmdh5", "cmdjson"):
+                check_case(ctx, fx, kind, rep, axis, cli=True, deco="plain", tags=["cli", "repeated-id"])
+            check_text(ctx, fx, rep, axis, "writer")
+            check_text(ctx, fx, rep, axis, "dio-indent2")
     finally:
         fx.close()
     ctx.count("stream=cli-ids-file")
+    return n
+
+
+def group_stream(ctx, rng, n0):
+    """several tables in one HDF5 file: the table under test in a sub-group, at the root another table (IDs partly
+    shared, other shape) or no table at all; the readers are handed the GROUP"""
+    n = n0
+    a = {"obs": ["O1", "O2", "O3"], "samp": ["S1", "S2", "S3", "S4"],
+         "rows": [[1, 0, 2, 0], [0, 0, 0, 5], [3, -3, 0, 0]],
+         "omd": [{"grp": "a"}, {"grp": "b"}, {"grp": "c"}], "smd": None, "type": "OTU table"}
+    root = {"obs": ["O3", "X1"], "samp": ["S4", "S1", "Z"], "rows": [[7, 0, 1], [0, 8, 2]],
+            "omd": None, "smd": [{"grp": "q"}, {"grp": "r"}, {"grp": "s"}], "type": None}
+    for root_spec in (root, None):
+        n += 1
+        fx = Fixture(a, "csr", "x", n, group="second/study", root_spec=root_spec)
+        try:
+            for axis, reqs in (("sample", [["S4", "S1"], ["S2"], ["S3", "S2", "S1"]]),
+                               ("observation", [["O3"], ["O2", "O1"], ["O3", "O1"]])):
+                for ids in reqs:
+                    for variant in ("h5", "h5nomd", "parseh5"):
+                        check_case(ctx, fx, variant, ids, axis, how=rng.choice(["list", "tuple", "array"]),
+                                   tags=["sub-group"])
+                for u in (["Z"], ["X1", "O1"], ["S1", "S40"]):
+                    for variant in ("h5", "h5nomd", "parseh5"):
+                        check_case(ctx, fx, variant, u, axis, tags=["sub-group", "unknown-id"])
+            handle_sequence(ctx, fx, rng)
+        finally:
+            fx.close()
+    ctx.count("stream=sub-group")
     return n
 
 
@@ -1211,8 +1306,9 @@ def run(ctx):
             fx.close()
         # 2a. process-level state / path re-use: early in the run, before the default calls of the main stream
         n = state_stream(ctx, rng, n)
-        # 2a'. every serialisation / key order; the command line with an IDs file
+        # 2a'. every serialisation / key order; the command line with an IDs file; tables in sub-groups
         if first or not quick:
+            n = group_stream(ctx, rng, n)
             n = ser_stream(ctx, rng, n)
             n = cli_stream(ctx, rng, n)
         # 2b. wide axes (9-16 vectors), kept positions spread over the range
@@ -1222,7 +1318,7 @@ def run(ctx):
         if first or not quick:
             n = large_stream(ctx, rng, n, quick)
         # 3. main stream
-        n_tables = 30 if quick else max(30, 360 // getattr(ctx, "worker", (0, 1))[1])
+        n_tables = 28 if quick else max(30, 360 // getattr(ctx, "worker", (0, 1))[1])
         routes = ["dense", "csr", "csc", "coo", "csr_unsorted", "csr_zeros", "sort_roundtrip", "lil"]
         gens = ["BIOM-Format 2.1", "x", "généré par é"]
         for k in range(n_tables):
@@ -1232,8 +1328,10 @@ def run(ctx):
             planted = plant_cancellations(rng, spec) if rng.random() < 0.45 else []
             if k % 5 == 1:
                 spec["gmd"] = True
+            grouped = k % 6 == 2
             fx = Fixture(spec, routes[k % len(routes)], rng.choice(gens), n,
-                         poke=rng.randrange(10 ** 6) if k % 3 else None)
+                         poke=rng.randrange(10 ** 6) if k % 3 else None, group="tables/t%d" % k if grouped else None,
+                         root_spec=gen_spec(rng, 3, 3) if grouped and k % 12 == 2 else None)
             fx.planted = planted
             ctx.count("stream=main")
             ctx.count("poked=%s" % ("yes" if fx.poked else "no"))
@@ -1243,7 +1341,7 @@ def run(ctx):
             try:
                 run_fixture(ctx, fx, rng, quick, sers=sers)
                 # the command itself on a few
-                if k % (9 if quick else 15) == 0:
+                if k % (9 if quick else 15) == 0 and not fx.group:
                     for axis, axis_ids in (("sample", spec["samp"]), ("observation", spec["obs"])):
                         ok_ids = [i for i in axis_ids if expressible(i)]
                         if not ok_ids:
@@ -1281,7 +1379,8 @@ def replay(ctx, rec):
             else:
                 check_case(ctx, fx, inp["variant"], inp["ids"], inp["axis"], ser=inp.get("ser", "writer"),
                            how=inp.get("how", "list"), form=inp.get("form", "str"), cli=inp.get("cli", False),
-                           opts=inp.get("opts") or None, deco=inp.get("deco") or "columns", tags=["replay"])
+                           opts=inp.get("opts") or None, deco=inp.get("deco") or "columns",
+                           in_place=inp.get("in_place", False), tags=["replay"])
         finally:
             fx.close()
     finally:
